@@ -63,7 +63,10 @@ def check_dwt_forward(cfg, sizes, rnd):
         import warnings
         with warnings.catch_warnings():
             warnings.simplefilter('ignore')
-            ref = pywt.wavedec(x.numpy(), wc, mode=m, level=J, axis=-1)
+            try:
+                ref = pywt.wavedec(x.numpy(), wc, mode=m, level=J, axis=-1)
+            except ValueError as e:
+                return True, 'oracle undefined here (pywt raises: %s)' % e
         ok, det = _close(yl.numpy(), ref[0])
         for j in range(J):
             if not ok:
@@ -81,7 +84,10 @@ def check_dwt_forward(cfg, sizes, rnd):
     import warnings
     with warnings.catch_warnings():
         warnings.simplefilter('ignore')
-        ref = pywt.wavedec2(x.numpy(), (wc, wr), mode=m, level=J, axes=(-2, -1))
+        try:
+            ref = pywt.wavedec2(x.numpy(), (wc, wr), mode=m, level=J, axes=(-2, -1))
+        except ValueError as e:
+            return True, 'oracle undefined here (pywt raises: %s)' % e
     ok, det = _close(yl.numpy(), ref[0])
     for j in range(J):
         if not ok:
@@ -108,7 +114,10 @@ def check_dwt_inverse(cfg, sizes, rnd):
     if dim == 1:
         N = _sz(sizes, 'N', sizes.get('W', 9), 2, 40)
         # an arbitrary pyramid with forward-compatible shapes
-        shapes = [c.shape for c in pywt.wavedec(np.zeros((Bn, C, N)), wc, mode=m, level=J, axis=-1)]
+        try:
+            shapes = [c.shape for c in pywt.wavedec(np.zeros((Bn, C, N)), wc, mode=m, level=J, axis=-1)]
+        except ValueError as e:
+            return True, 'oracle undefined here (pywt raises: %s)' % e
         coeffs = [np.random.RandomState(rnd.randint(0, 10**6)).randn(*s) for s in shapes]
         yl = torch.tensor(coeffs[0])
         yh = [torch.tensor(c) for c in coeffs[1:]][::-1]
@@ -124,7 +133,10 @@ def check_dwt_inverse(cfg, sizes, rnd):
         ok, det = _close(got.numpy(), ref)
         return ok, 'DWT1DInverse J=%d %s N=%d L=%d none=%s: %s' % (J, mode, N, wc.dec_len, none_level, det)
     H, W = _sz(sizes, 'H', 7, 2, 24), _sz(sizes, 'W', 6, 2, 24)
-    ref0 = pywt.wavedec2(np.zeros((Bn, C, H, W)), (wc, wr), mode=m, level=J, axes=(-2, -1))
+    try:
+        ref0 = pywt.wavedec2(np.zeros((Bn, C, H, W)), (wc, wr), mode=m, level=J, axes=(-2, -1))
+    except ValueError as e:
+        return True, 'oracle undefined here (pywt raises: %s)' % e
     rs = np.random.RandomState(rnd.randint(0, 10**6))
     cA = rs.randn(*ref0[0].shape)
     det_ = [tuple(rs.randn(*d.shape) for d in lvl) for lvl in ref0[1:]]
